@@ -27,6 +27,12 @@ class HarnessError(Exception):
     """The simulator itself failed (never a property violation)."""
 
 
+class EventBudgetExceeded(HarnessError):
+    def __init__(self, budget):
+        HarnessError.__init__(self, 'event budget exceeded')
+        self.budget = budget
+
+
 class LibraryHang(BaseException):
     """A simulated thread burnt wall-clock time inside the library without ever blocking or reading the
     clock (an endless or super-linear loop): reported as a violation clause 'hang', not as a harness error."""
@@ -83,6 +89,7 @@ class Sim:
         self.logbuf = []
         self.max_events = 2_000_000
         self.lock_waits = 0
+        self.app_calls_in_thread = 0
         CURRENT = self
 
     # ---------------------------------------------------------------- logging / digest
@@ -128,7 +135,7 @@ class Sim:
             self.now = t
         self.events_run += 1
         if self.events_run > self.max_events:
-            raise HarnessError('event budget exceeded')
+            raise EventBudgetExceeded(self.max_events)
         fn()
 
     def run_until(self, t_ns):
@@ -214,6 +221,45 @@ class Sim:
         self.after(int(seconds * 1e9) + 1, lambda: self._resume(th), 'sleep-resume')
         self._yield('sleep')
         th.spin_slices = 0
+
+    def call_in_thread(self, fn, name='app-call', trace=None, defer=('op',)):
+        """Run fn() in a fresh simulated thread, starting now, and let the simulation run on (nested) until it has returned;
+        returns fn's result / raises its exception.  Used for application calls that are to be pre-empted inside the library
+        (`trace` parks the thread at a source line): the job threads and reception go on meanwhile, while further application
+        operations (events tagged as in `defer`) wait - one application thread issues its calls one after the other."""
+        if self.current is not None:
+            return fn()
+        box = {}
+
+        def body():
+            try:
+                box['r'] = fn()
+            except SimKilled:
+                raise
+            except BaseException as e:      # noqa - handed to the caller
+                box['e'] = e
+        th = SimThread(self, target=body, name=name)
+        th.trace = trace
+        th.started = True
+        th._real = _real_threading.Thread(target=th._bootstrap, name=name, daemon=True)
+        th._real.start()
+        self.app_calls_in_thread += 1
+        self._resume(th)
+        stash = []
+        while not th.done and not th.dead:
+            if not self.heap:
+                raise HarnessError('application call never returned')
+            if self.heap[0][3] in defer:
+                stash.append(heapq.heappop(self.heap))
+                continue
+            self._step()
+        for (t, seq, f, tag) in stash:
+            heapq.heappush(self.heap, (max(t, self.now), seq, f, tag))
+        if th.exc is not None:
+            raise HarnessError('application call thread failed: %r' % (th.exc,))
+        if 'e' in box:
+            raise box['e']
+        return box.get('r')
 
     def shutdown(self):
         global CURRENT
